@@ -12,6 +12,7 @@
 #include <fstream>
 #include <sys/mman.h>
 #include <sys/resource.h>
+#include <dirent.h>
 #include <sys/stat.h>
 #include <sys/wait.h>
 #include <unistd.h>
@@ -1070,6 +1071,7 @@ int driver_main(const DriverOpts &o)
     std::set<std::string>    known_keys;
     std::vector<std::string> known_lines;
     std::vector<std::pair<Plan, Outcome>> changed_known;
+    unsigned                              regress_run = 0;
     for (auto &k : known) {
         if (k.mask)
             known_keys.insert(k.key);
@@ -1107,6 +1109,43 @@ int driver_main(const DriverOpts &o)
                 changed_known.push_back({plan, out});
             }
         }
+    }
+
+    // 1b. repaired findings: the stored histories under findings/fixed are regression replays; one that fails again
+    //     (in a way no listed finding covers) is a violation
+    {
+        std::vector<std::string> fixed;
+        std::string              fdir = o.verif_dir + "/findings/fixed";
+        if (DIR *d = opendir(fdir.c_str())) {
+            while (struct dirent *de = readdir(d)) {
+                std::string n = de->d_name;
+                if (n.size() > 5 && n.substr(n.size() - 5) == ".plan")
+                    fixed.push_back(n);
+            }
+            closedir(d);
+        }
+        std::sort(fixed.begin(), fixed.end());
+        for (auto &n : fixed) {
+            Plan plan;
+            if (!Plan::from_text(slurp(fdir + "/" + n), plan) || plan.profile != prof->name())
+                continue;
+            Exec ex;
+            ex.prof     = prof;
+            Outcome out = prof->judge(plan, ex);
+            regress_run++;
+            if (out.status == ST_OK || out.status == ST_ENGINE)
+                continue;
+            bool listed = false;
+            for (auto &k2 : known)
+                listed |= k2.key == out.v.key;
+            if (listed)
+                continue;
+            printf("note: the stored history of a repaired finding fails again: findings/fixed/%s (key=%s)\n", n.c_str(),
+                   out.v.key.c_str());
+            changed_known.push_back({plan, out});
+        }
+        if (regress_run)
+            printf("h4sim: %u stored histories of repaired findings re-executed\n", regress_run);
     }
 
     // 2. the batch
@@ -1253,7 +1292,7 @@ int driver_main(const DriverOpts &o)
         if (fresh_replay(path) == 1) {
             seen_keys.insert(co.v.key);
             reported++;
-            printf("violation: stored replay of a known finding fails in an unlisted way: class=%s key=%s: %s\n",
+            printf("violation: a stored replay (known or repaired finding) fails in an unlisted way: class=%s key=%s: %s\n",
                    co.v.cls.c_str(), co.v.key.c_str(), co.v.msg.c_str());
             printf("VIOLATION property=%s replay=%s\n", prof->property(), path.c_str());
             viol_notes.push_back(strf("%s key=%s replay=%s: %s", co.v.cls.c_str(), co.v.key.c_str(), path.c_str(), co.v.msg.c_str()));
